@@ -48,7 +48,7 @@ def splitBar (toks : List String) : List (List String) :=
   go [] [] toks
 
 def parseAll (groups : List (List String)) : Option (List T) :=
-  groups.mapM (fun g => match parseE g with
+  groups.mapM (fun g => match parseE (g.length + 1) g with
     | some (e, []) => some e
     | _ => none)
 
